@@ -381,6 +381,15 @@ func (x *fnCtx) lockCheckAtReturn(st *State, fr *Frame, env *specEnv) {
 	if !x.lockLayer() {
 		return
 	}
+	// postconditions that must hold under the concurrent semantics (guarded state is known
+	// only while its lock is held): the atomicity claims of the lock layer
+	for _, cl := range x.con.ClausesOf("conc_ensures") {
+		if !cl.appliesTo(x.eng.prop) {
+			continue
+		}
+		g := x.evalClause(env, cl.Expr, cl.Text)
+		x.addVC(st, x.short, "lockpost", 100+cl.Ord, "conc", g, "conc_ensures "+cl.Text+" (holds under interleaving)", cl.Line)
+	}
 	keep := map[*Term]*Term{} // lock -> condition under which it stays held
 	for _, cl := range x.con.Clauses {
 		if cl.Kind == "holds" || cl.Kind == "acquires" {
